@@ -4,23 +4,28 @@
    only at the semantic records, never at a blob.  Every element carries a layout: the order in which its properties are
    written, with any number of other (noise) properties in between.  No proofs here. *)
 From Coq Require Import String Ascii List Bool Arith.
-From KV Require Import Lib.Str Lib.ODict Model.Vpp Model.VppWriter Model.Uml Model.UmlBlob Model.UmlWriter.
+From KV Require Import Lib.Str Lib.ODict Model.Vpp Model.VppWriter Model.Uml Model.UmlBlob Model.UmlWriter Model.UmlDomain.
 Import ListNotations.
 Open Scope string_scope.
 
 Inductive tag := TVis | TRet | TTypeMod | TAbstract | TQuery | TScope | TDoc | TChild | TType | TTypeString | TDir | TDefault
-               | TMult | TInit | TSetter | TGetter | TReadOnly | TStereo | TFrom | TTo.
-Inductive slot := SNoise (k v : string) | STag (t : tag).
+               | TMult | TInit | TSetter | TGetter | TReadOnly | TStereo | TFrom | TTo | TAgg.
+(* SInert: ANY other property of the element as written -- a scalar, a reference list, owned elements the reader has no
+   interest in (model views, qualifiers, ...), free text (an HTML documentation) *)
+Inductive slot := SNoise (k v : string) | STag (t : tag) | SInert (it : witem).
 
 Definition tag_eqb (a b : tag) : bool :=
   match a, b with
   | TVis, TVis | TRet, TRet | TTypeMod, TTypeMod | TAbstract, TAbstract | TQuery, TQuery | TScope, TScope | TDoc, TDoc
   | TChild, TChild | TType, TType | TTypeString, TTypeString | TDir, TDir | TDefault, TDefault | TMult, TMult | TInit, TInit
-  | TSetter, TSetter | TGetter, TGetter | TReadOnly, TReadOnly | TStereo, TStereo | TFrom, TFrom | TTo, TTo => true
+  | TSetter, TSetter | TGetter, TGetter | TReadOnly, TReadOnly | TStereo, TStereo | TFrom, TFrom | TTo, TTo | TAgg, TAgg => true
   | _, _ => false
   end.
 
-Definition tabs (n : nat) : string := crlf ++ (fix go (n : nat) : string := match n with O => "" | S m => String TAB (go m) end) n.
+(* a line break (CR LF or LF: every element of the shipped project uses one of the two throughout) and n tabs *)
+Definition tabsn (nl : string) (n : nat) : string := nl ++ (fix go (n : nat) : string := match n with O => "" | S m => String TAB (go m) end) n.
+Definition tabs (n : nat) : string := tabsn crlf n.
+Definition nl_ok (nl : string) : bool := String.eqb nl crlf || String.eqb nl (String LF "").
 Definition q (s : string) : string := dq ++ s ++ dq.
 Definition path_text (ids : list string) : string := Uml.join ":" ids.
 
@@ -29,139 +34,184 @@ Definition items_of (ws : string) (f : tag -> option witem) (layout : list slot)
   flat_map (fun s => match s with
                      | SNoise k v => [IField ws k v]
                      | STag t => match f t with Some it => [it] | None => [] end
+                     | SInert it => [it]
                      end) layout.
+
+(* documentation: a plain text, or any quoted text (line breaks, apostrophes, parentheses ...) -- the reader then keeps what
+   mass_replace leaves of it *)
+Inductive sdoc := DText (v : string) | DRaw (t : string).
+Definition doc_value (d : sdoc) : string :=
+  match d with DText v => v | DRaw t => py_strip (mass_replace (repr_body SQ (dq ++ t ++ dq))) end.
 
 Definition text_field (ws k v : string) : option witem := if String.eqb v "" then None else Some (IField ws k (q v)).
 Definition flag_field (ws k : string) (b : bool) : option witem := if b then Some (IField ws k "T") else None.
+Definition doc_field (ws : string) (d : sdoc) : option witem :=
+  match d with
+  | DText v => text_field ws "documentation_plain" v
+  | DRaw t => Some (IRaw (ws ++ "documentation_plain=" ++ q t ++ ";"))
+  end.
 Definition ref_field (ws k : string) (ids : list string) : option witem :=
   match ids with [] => None | _ => Some (IRefs ws k "" "" "" [path_text ids]) end.
-Definition list_open (n : nat) : string := "(" ++ tabs n.
-Definition list_sep (n : nat) : string := ", " ++ tabs n.
-Definition list_close (n : nat) : string := tabs n ++ ")".
+Definition list_open (nl : string) (n : nat) : string := "(" ++ tabsn nl n.
+Definition list_sep (nl : string) (n : nat) : string := ", " ++ tabsn nl n.
+Definition list_close (nl : string) (n : nat) : string := tabsn nl n ++ ")".
 
 (* ---------------------------------------------------------------- parameters, operations, attributes *)
 
 Record sparam := { sp_id : string; sp_name : string; sp_basic : option string; sp_type : list string; sp_dir : option bool;
-                   sp_mod : string; sp_default : string; sp_mult : string; sp_layout : list slot }.
+                   sp_mod : string; sp_default : string; sp_mult : string; sp_nl : string; sp_layout : list slot }.
 
 Definition param_item (p : sparam) (t : tag) : option witem :=
   match t with
-  | TTypeString => match sp_basic p with Some s => Some (IField (tabs 4) "type_string" (q s)) | None => None end
-  | TType => match sp_basic p with Some _ => None | None => ref_field (tabs 4) "type" (sp_type p) end
-  | TDir => match sp_dir p with Some true => Some (IField (tabs 4) "direction" "65") | Some false => Some (IField (tabs 4) "direction" "66") | None => None end
-  | TTypeMod => text_field (tabs 4) "typeModifier" (sp_mod p)
-  | TDefault => text_field (tabs 4) "defaultValue_string" (sp_default p)
-  | TMult => text_field (tabs 4) "multiplicity" (sp_mult p)
+  | TTypeString => match sp_basic p with Some s => Some (IField (tabsn (sp_nl p) 5) "type_string" (q s)) | None => None end
+  | TType => match sp_basic p with Some _ => None | None => ref_field (tabsn (sp_nl p) 5) "type" (sp_type p) end
+  | TDir => match sp_dir p with Some true => Some (IField (tabsn (sp_nl p) 5) "direction" "65") | Some false => Some (IField (tabsn (sp_nl p) 5) "direction" "66") | None => None end
+  | TTypeMod => text_field (tabsn (sp_nl p) 5) "typeModifier" (sp_mod p)
+  | TDefault => text_field (tabsn (sp_nl p) 5) "defaultValue_string" (sp_default p)
+  | TMult => text_field (tabsn (sp_nl p) 5) "multiplicity" (sp_mult p)
   | _ => None
   end.
 Definition tree_of_param (p : sparam) : wnode :=
-  WNode (sp_id p) (Some (sp_name p)) "Parameter" (items_of (tabs 4) (param_item p) (sp_layout p)) (tabs 3).
+  WNode (sp_id p) (Some (sp_name p)) "Parameter" (items_of (tabsn (sp_nl p) 5) (param_item p) (sp_layout p)) (tabsn (sp_nl p) 4).
 
 Record sop := { so_id : string; so_name : string; so_vis : option string; so_ret : list string; so_retmod : string;
-                so_abstract : bool; so_query : bool; so_static : bool; so_doc : string; so_params : list sparam;
-                so_layout : list slot }.
+                so_abstract : bool; so_query : bool; so_static : bool; so_doc : sdoc; so_params : list sparam;
+                so_nl : string; so_layout : list slot }.
 
 Definition op_item (o : sop) (t : tag) : option witem :=
   match t with
-  | TVis => match so_vis o with Some c => Some (IField (tabs 3) "visibility" c) | None => None end
-  | TRet => ref_field (tabs 3) "returnType" (so_ret o)
-  | TTypeMod => text_field (tabs 3) "typeModifier" (so_retmod o)
-  | TAbstract => flag_field (tabs 3) "abstract" (so_abstract o)
-  | TQuery => flag_field (tabs 3) "query" (so_query o)
-  | TScope => if so_static o then Some (IField (tabs 3) "scope" "65") else None
-  | TDoc => text_field (tabs 3) "documentation_plain" (so_doc o)
+  | TVis => match so_vis o with Some c => Some (IField (tabsn (so_nl o) 3) "visibility" c) | None => None end
+  | TRet => ref_field (tabsn (so_nl o) 3) "returnType" (so_ret o)
+  | TTypeMod => text_field (tabsn (so_nl o) 3) "typeModifier" (so_retmod o)
+  | TAbstract => flag_field (tabsn (so_nl o) 3) "abstract" (so_abstract o)
+  | TQuery => flag_field (tabsn (so_nl o) 3) "query" (so_query o)
+  | TScope => if so_static o then Some (IField (tabsn (so_nl o) 3) "scope" "65") else None
+  | TDoc => doc_field (tabsn (so_nl o) 3) (so_doc o)
   | TChild => match so_params o with
               | [] => None
-              | ps => Some (IChildren (tabs 3) "Child" (list_open 4) (list_sep 4) (list_close 3) (map tree_of_param ps))
+              | ps => Some (IChildren (tabsn (so_nl o) 3) "Child" (list_open (so_nl o) 4) (list_sep (so_nl o) 4) (list_close (so_nl o) 3) (map tree_of_param ps))
               end
   | _ => None
   end.
 Definition tree_of_op (o : sop) : wnode :=
-  WNode (so_id o) (Some (so_name o)) "Operation" (items_of (tabs 3) (op_item o) (so_layout o)) (tabs 2).
+  WNode (so_id o) (Some (so_name o)) "Operation" (items_of (tabsn (so_nl o) 3) (op_item o) (so_layout o)) (tabsn (so_nl o) 2).
 
 Record sattr := { sa_id : string; sa_name : string; sa_vis : option string; sa_type : list string; sa_mod : string; sa_mult : string;
-                  sa_doc : string; sa_init : string; sa_setter : bool; sa_getter : bool; sa_static : bool; sa_const : bool;
-                  sa_layout : list slot }.
+                  sa_doc : sdoc; sa_init : string; sa_setter : bool; sa_getter : bool; sa_static : bool; sa_const : bool;
+                  sa_nl : string; sa_layout : list slot }.
 
 Definition attr_item (a : sattr) (t : tag) : option witem :=
   match t with
-  | TVis => match sa_vis a with Some c => Some (IField (tabs 3) "visibility" c) | None => None end
-  | TType => ref_field (tabs 3) "type" (sa_type a)
-  | TTypeMod => text_field (tabs 3) "typeModifier" (sa_mod a)
-  | TMult => text_field (tabs 3) "multiplicity" (sa_mult a)
-  | TDoc => text_field (tabs 3) "documentation_plain" (sa_doc a)
-  | TInit => text_field (tabs 3) "initialValue_string" (sa_init a)
-  | TSetter => flag_field (tabs 3) "hasSetter" (sa_setter a)
-  | TGetter => flag_field (tabs 3) "hasGetter" (sa_getter a)
-  | TScope => if sa_static a then Some (IField (tabs 3) "scope" "65") else None
-  | TReadOnly => flag_field (tabs 3) "readOnly" (sa_const a)
+  | TVis => match sa_vis a with Some c => Some (IField (tabsn (sa_nl a) 3) "visibility" c) | None => None end
+  | TType => ref_field (tabsn (sa_nl a) 3) "type" (sa_type a)
+  | TTypeMod => text_field (tabsn (sa_nl a) 3) "typeModifier" (sa_mod a)
+  | TMult => text_field (tabsn (sa_nl a) 3) "multiplicity" (sa_mult a)
+  | TDoc => doc_field (tabsn (sa_nl a) 3) (sa_doc a)
+  | TInit => text_field (tabsn (sa_nl a) 3) "initialValue_string" (sa_init a)
+  | TSetter => flag_field (tabsn (sa_nl a) 3) "hasSetter" (sa_setter a)
+  | TGetter => flag_field (tabsn (sa_nl a) 3) "hasGetter" (sa_getter a)
+  | TScope => if sa_static a then Some (IField (tabsn (sa_nl a) 3) "scope" "65") else None
+  | TReadOnly => flag_field (tabsn (sa_nl a) 3) "readOnly" (sa_const a)
   | _ => None
   end.
 Definition tree_of_attr (a : sattr) : wnode :=
-  WNode (sa_id a) (Some (sa_name a)) "Attribute" (items_of (tabs 3) (attr_item a) (sa_layout a)) (tabs 2).
+  WNode (sa_id a) (Some (sa_name a)) "Attribute" (items_of (tabsn (sa_nl a) 3) (attr_item a) (sa_layout a)) (tabsn (sa_nl a) 2).
 
 (* ---------------------------------------------------------------- classes, packages, inheritance *)
 
-Inductive smember := MOp (o : sop) | MAttr (a : sattr) | MLit (id name : string) (noise : list slot).
+Inductive smember := MOp (o : sop) | MAttr (a : sattr) | MLit (id name nl : string) (noise : list slot).
 
 Definition tree_of_member (m : smember) : wnode :=
   match m with
   | MOp o => tree_of_op o
   | MAttr a => tree_of_attr a
-  | MLit id name noise => WNode id (Some name) "EnumerationLiteral" (items_of (tabs 3) (fun _ => None) noise) (tabs 2)
+  | MLit id name nl noise => WNode id (Some name) "EnumerationLiteral" (items_of (tabsn nl 3) (fun _ => None) noise) (tabsn nl 2)
   end.
 
 Record sclass := { sc_id : string; sc_name : string; sc_parent : option string; sc_stereos : list string; sc_abstract : bool;
-                   sc_doc : string; sc_members : list smember; sc_layout : list slot }.
+                   sc_doc : sdoc; sc_members : list smember; sc_nl : string; sc_layout : list slot }.
 
 Definition class_item (c : sclass) (t : tag) : option witem :=
   match t with
   | TStereo => match sc_stereos c with
                | [] => None
-               | ids => Some (IRefs (tabs 1) "stereotypes" (list_open 2) (list_sep 2) (list_close 1) ids)
+               | ids => Some (IRefs (tabsn (sc_nl c) 1) "stereotypes" (list_open (sc_nl c) 2) (list_sep (sc_nl c) 2) (list_close (sc_nl c) 1) ids)
                end
-  | TAbstract => flag_field (tabs 1) "abstract" (sc_abstract c)
-  | TDoc => text_field (tabs 1) "documentation_plain" (sc_doc c)
+  | TAbstract => flag_field (tabsn (sc_nl c) 1) "abstract" (sc_abstract c)
+  | TDoc => doc_field (tabsn (sc_nl c) 1) (sc_doc c)
   | TChild => match sc_members c with
               | [] => None
-              | ms => Some (IChildren (tabs 1) "Child" (list_open 2) (list_sep 2) (list_close 1) (map tree_of_member ms))
+              | ms => Some (IChildren (tabsn (sc_nl c) 1) "Child" (list_open (sc_nl c) 2) (list_sep (sc_nl c) 2) (list_close (sc_nl c) 1) (map tree_of_member ms))
               end
   | _ => None
   end.
 Definition tree_of_class (c : sclass) : wnode :=
-  WNode (sc_id c) (Some (sc_name c)) "Class" (items_of (tabs 1) (class_item c) (sc_layout c)) crlf.
+  WNode (sc_id c) (Some (sc_name c)) "Class" (items_of (tabsn (sc_nl c) 1) (class_item c) (sc_layout c)) (sc_nl c).
 
-Record spackage := { sk_id : string; sk_name : string; sk_parent : option string; sk_paths : list (list string); sk_layout : list slot }.
+Record spackage := { sk_id : string; sk_name : string; sk_parent : option string; sk_paths : list (list string); sk_nl : string; sk_layout : list slot }.
 
 Definition package_item (p : spackage) (t : tag) : option witem :=
   match t with
   | TChild => match sk_paths p with
               | [] => None
-              | ps => Some (IRefs (tabs 1) "Child" (list_open 2) (list_sep 2) (list_close 1) (map path_text ps))
+              | ps => Some (IRefs (tabsn (sk_nl p) 1) "Child" (list_open (sk_nl p) 2) (list_sep (sk_nl p) 2) (list_close (sk_nl p) 1) (map path_text ps))
               end
   | _ => None
   end.
 Definition tree_of_package (p : spackage) : wnode :=
-  WNode (sk_id p) (Some (sk_name p)) "Package" (items_of (tabs 1) (package_item p) (sk_layout p)) crlf.
+  WNode (sk_id p) (Some (sk_name p)) "Package" (items_of (tabsn (sk_nl p) 1) (package_item p) (sk_layout p)) (sk_nl p).
 
-Record sinh := { si_id : string; si_parent : option string; si_real : bool; si_from : list string; si_to : list string; si_layout : list slot }.
+Record sinh := { si_id : string; si_parent : option string; si_real : bool; si_from : list string; si_to : list string; si_nl : string; si_layout : list slot }.
 
 Definition inh_item (i : sinh) (t : tag) : option witem :=
   match t with
-  | TFrom => ref_field (tabs 1) "fromModel" (si_from i)
-  | TTo => ref_field (tabs 1) "toModel" (si_to i)
+  | TFrom => ref_field (tabsn (si_nl i) 1) "fromModel" (si_from i)
+  | TTo => ref_field (tabsn (si_nl i) 1) "toModel" (si_to i)
   | _ => None
   end.
 Definition tree_of_inh (i : sinh) : wnode :=
-  WNode (si_id i) None (if si_real i then "Realization" else "Generalization") (items_of (tabs 1) (inh_item i) (si_layout i)) crlf.
+  WNode (si_id i) None (if si_real i then "Realization" else "Generalization") (items_of (tabsn (si_nl i) 1) (inh_item i) (si_layout i)) (si_nl i).
+
+(* ---------------------------------------------------------------- associations: two ends, each with the class it is attached to *)
+
+Record send := { se_id : string; se_name : option string; se_class : list string; se_mult : string; se_agg : option string;
+                 se_vis : option string; se_getter : bool; se_setter : bool; se_const : bool; se_nl : string; se_layout : list slot }.
+
+Definition end_item (from : bool) (e : send) (t : tag) : option witem :=
+  match t with
+  | TDir => Some (IField (tabsn (se_nl e) 2) "Direction" (if from then "0" else "1"))
+  | TType => ref_field (tabsn (se_nl e) 2) "EndModelElement" (se_class e)
+  | TMult => text_field (tabsn (se_nl e) 2) "multiplicity" (se_mult e)
+  | TAgg => match se_agg e with Some c => Some (IField (tabsn (se_nl e) 2) "aggregationKind" c) | None => None end
+  | TVis => match se_vis e with Some c => Some (IField (tabsn (se_nl e) 2) "visibility" c) | None => None end
+  | TGetter => flag_field (tabsn (se_nl e) 2) "providePropertyGetterMethod" (se_getter e)
+  | TSetter => flag_field (tabsn (se_nl e) 2) "providePropertySetterMethod" (se_setter e)
+  | TReadOnly => flag_field (tabsn (se_nl e) 2) "readOnly" (se_const e)
+  | _ => None
+  end.
+Definition tree_of_end (from : bool) (e : send) : wnode :=
+  WNode (se_id e) (se_name e) "AssociationEnd" (items_of (tabsn (se_nl e) 2) (end_item from e) (se_layout e)) (tabsn (se_nl e) 1).
+
+Record sassoc := { sx_id : string; sx_name : option string; sx_parent : option string; sx_doc : sdoc;
+                   sx_from : send; sx_to : send; sx_nl : string; sx_layout : list slot }.
+
+Definition assoc_item (x : sassoc) (t : tag) : option witem :=
+  match t with
+  | TDoc => doc_field (tabsn (sx_nl x) 1) (sx_doc x)
+  | TFrom => Some (IChildren (tabsn (sx_nl x) 1) "from" "" "" "" [tree_of_end true (sx_from x)])
+  | TTo => Some (IChildren (tabsn (sx_nl x) 1) "to" "" "" "" [tree_of_end false (sx_to x)])
+  | _ => None
+  end.
+Definition tree_of_assoc (x : sassoc) : wnode :=
+  WNode (sx_id x) (sx_name x) "Association" (items_of (tabsn (sx_nl x) 1) (assoc_item x) (sx_layout x)) (sx_nl x).
 
 (* ---------------------------------------------------------------- the diagram *)
 
-Inductive selem := EClass (c : sclass) | EPackage (p : spackage) | EInh (i : sinh)
-                 | EOther (id : string) (name : option string) (ty : string) (parent : option string) (noise : list slot).
+Inductive selem := EClass (c : sclass) | EPackage (p : spackage) | EInh (i : sinh) | EAssoc (x : sassoc)
+                 | EOther (id : string) (name : option string) (ty : string) (parent : option string) (nl : string) (noise : list slot).
 
 (* an element that is only referred to (stereotype, data type, enclosing package ...): its name is what matters *)
-Record sref := { sr_id : string; sr_name : string; sr_type : string; sr_parent : option string; sr_noise : list slot }.
+Record sref := { sr_id : string; sr_name : string; sr_type : string; sr_parent : option string; sr_nl : string; sr_noise : list slot }.
 
 Record sdiagram := { sd_id : string; sd_name : string; sd_shapes : list (string * selem); sd_refd : list sref }.
 
@@ -170,10 +220,11 @@ Definition welem_of (e : selem) : welem :=
   | EClass c => {| we_parent := sc_parent c; we_node := tree_of_class c |}
   | EPackage p => {| we_parent := sk_parent p; we_node := tree_of_package p |}
   | EInh i => {| we_parent := si_parent i; we_node := tree_of_inh i |}
-  | EOther id nm ty par noise => {| we_parent := par; we_node := WNode id nm ty (items_of (tabs 1) (fun _ => None) noise) crlf |}
+  | EAssoc x => {| we_parent := sx_parent x; we_node := tree_of_assoc x |}
+  | EOther id nm ty par nl noise => {| we_parent := par; we_node := WNode id nm ty (items_of (tabsn nl 1) (fun _ => None) noise) nl |}
   end.
 Definition welem_of_ref (r : sref) : welem :=
-  {| we_parent := sr_parent r; we_node := WNode (sr_id r) (Some (sr_name r)) (sr_type r) (items_of (tabs 1) (fun _ => None) (sr_noise r)) crlf |}.
+  {| we_parent := sr_parent r; we_node := WNode (sr_id r) (Some (sr_name r)) (sr_type r) (items_of (tabsn (sr_nl r) 1) (fun _ => None) (sr_noise r)) (sr_nl r) |}.
 
 Definition tree_of (S : sdiagram) : wdiagram :=
   {| wd_id := sd_id S; wd_name := sd_name S;
@@ -186,9 +237,9 @@ Definition encode_project (S : sdiagram) : db := encode_cdiagram (tree_of S).
 (* ---------------------------------------------------------------- SPECIFICATION: what the diagram stands for *)
 
 Definition elem_id (e : selem) : string :=
-  match e with EClass c => sc_id c | EPackage p => sk_id p | EInh i => si_id i | EOther id _ _ _ _ => id end.
+  match e with EClass c => sc_id c | EPackage p => sk_id p | EInh i => si_id i | EAssoc x => sx_id x | EOther id _ _ _ _ _ => id end.
 Definition elem_name (e : selem) : string :=
-  match e with EClass c => sc_name c | EPackage p => sk_name p | EInh _ => "" | EOther _ nm _ _ _ => ostr nm end.
+  match e with EClass c => sc_name c | EPackage p => sk_name p | EInh _ => "" | EAssoc x => ostr (sx_name x) | EOther _ nm _ _ _ _ => ostr nm end.
 
 (* NAME of the element with an id: shapes first, then the referenced elements (the rows in that order) *)
 Definition name_of (S : sdiagram) (id : string) : option string :=
@@ -206,7 +257,7 @@ Definition vis_of_code (c : string) : string :=
 
 Definition rparam_of (S : sdiagram) (p : sparam) : rparam :=
   {| rp_const := match sp_dir p with Some true => "const" | _ => "" end;
-     rp_type := match sp_basic p with Some s => s | None => type_name S (sp_type p) end;
+     rp_type := clean_modifiers (match sp_basic p with Some s => s | None => type_name S (sp_type p) end);
      rp_name := sp_name p; rp_modifier := sp_mod p; rp_default := sp_default p; rp_mult := sp_mult p;
      rp_dir := match sp_dir p with Some true => "in" | Some false => "out" | None => "inout" end |}.
 
@@ -214,13 +265,13 @@ Definition rop_of (S : sdiagram) (o : sop) : rop :=
   let v := match so_vis o with Some c => vis_of_code c | None => "public" end in
   let pkg := String.eqb v "package" in
   {| ro_name := so_name o; ro_vis := if pkg then "public" else v;
-     ro_ret := match so_ret o with [] => "void" | ids => type_name S ids end; ro_retmod := so_retmod o;
-     ro_params := map (rparam_of S) (so_params o); ro_comment := so_doc o;
+     ro_ret := match so_ret o with [] => "void" | ids => clean_modifiers (type_name S ids) end; ro_retmod := so_retmod o;
+     ro_params := map (rparam_of S) (so_params o); ro_comment := doc_value (so_doc o);
      ro_virtual := so_abstract o; ro_static := pkg || so_static o; ro_const := so_query o |}.
 
 Definition rattr_of (S : sdiagram) (a : sattr) : rattr :=
   {| ra_name := sa_name a; ra_vis := match sa_vis a with Some c => vis_of_code c | None => "private" end; ra_mod := sa_mod a;
-     ra_comment := sa_doc a; ra_type := match sa_type a with [] => "void" | ids => type_name S ids end; ra_mult := sa_mult a;
+     ra_comment := doc_value (sa_doc a); ra_type := match sa_type a with [] => "void" | ids => clean_modifiers (type_name S ids) end; ra_mult := sa_mult a;
      ra_setter := sa_setter a; ra_getter := sa_getter a; ra_static := sa_static a; ra_const := sa_const a;
      ra_init := if String.eqb (sa_init a) "" then None else Some (sa_init a) |}.
 
@@ -250,8 +301,8 @@ Definition rclass_of (S : sdiagram) (c : sclass) : rclass :=
      rc_pure := sc_abstract c || existsb (is_kind KIface) ks; rc_autogen := existsb (is_kind KAutogen) ks; rc_enum := enum;
      rc_struct := existsb (is_kind (KStructure false)) ks;
      rc_packed := existsb (fun k => match k with KStructure true => true | _ => false end) ks;
-     rc_comment := sc_doc c;
-     rc_literals := if enum then flat_map (fun m => match m with MLit _ n _ => [n] | _ => [] end) (sc_members c) else [];
+     rc_comment := doc_value (sc_doc c);
+     rc_literals := if enum then flat_map (fun m => match m with MLit _ n _ _ => [n] | _ => [] end) (sc_members c) else [];
      rc_ops := flat_map (fun m => match m with MOp o => [rop_of S o] | _ => [] end) (sc_members c);
      rc_attrs := flat_map (fun m => match m with MAttr a => [rattr_of S a] | _ => [] end) (sc_members c) |}.
 
@@ -271,10 +322,53 @@ Definition rinh_of (S : sdiagram) (i : sinh) : rinh :=
   {| ri_id := si_id i; ri_real := si_real i; ri_from := end_name S (si_from i); ri_from_id := last (si_from i) "";
      ri_to := end_name S (si_to i); ri_to_id := last (si_to i) "" |}.
 
+(* an association as the generator consumes it.  The two ends are read in the order they are written (sx_layout): an end
+   without multiplicity gets a default that depends on the association type known at that moment (aggregationKind of an
+   end read earlier), exactly as Association.ParseAssociation does *)
+Definition assoc0 (id name : string) : rassoc :=
+  {| as_id := id; as_name := name; as_type := "Association"; as_comment := "";
+     as_from := ""; as_from_id := ""; as_from_vis := "private"; as_from_static := false; as_from_const := false;
+     as_from_mult := "0..1"; as_from_getter := false; as_from_setter := false;
+     as_to := ""; as_to_id := ""; as_to_vis := "private"; as_to_static := false; as_to_const := false;
+     as_to_mult := "0..1"; as_to_getter := false; as_to_setter := false |}.
+
+Definition end_spec (S : sdiagram) (from : bool) (e : send) (a : rassoc) : rassoc :=
+  let nm := type_name S (se_class e) in
+  let a1 := if from then set_from a nm (last (se_class e) "") else set_to a nm (last (se_class e) "") in
+  let a2 := match se_agg e with
+            | Some c => if String.eqb c "66" then set_type a1 "Aggregation" else if String.eqb c "67" then set_type a1 "Composition" else a1
+            | None => a1
+            end in
+  let a3 := if negb (String.eqb (se_mult e) "") then set_end a2 from None None None (Some (se_mult e)) None None
+            else if from then (if String.eqb (as_type a2) "Composition" then set_end a2 true None None None (Some "1") None None else a2)
+            else (if negb (String.eqb (as_type a2) "Association") then set_end a2 false None None None (Some "0") None None else a2) in
+  let a4 := match se_vis e with
+            | Some c => if String.eqb c "68" then set_end a3 from None (Some true) None None None None
+                        else set_end a3 from (Some (vis_of_code c)) None None None None None
+            | None => a3
+            end in
+  let a5 := if se_getter e then set_end a4 from None None None None (Some true) None else a4 in
+  let a6 := if se_setter e then set_end a5 from None None None None None (Some true) else a5 in
+  if se_const e then set_end a6 from None None (Some true) None None None else a6.
+
+(* is the to-end written before the from-end? *)
+Fixpoint to_first (l : list slot) : bool :=
+  match l with
+  | [] => false
+  | STag TTo :: _ => true
+  | STag TFrom :: _ => false
+  | _ :: r => to_first r
+  end.
+
+Definition rassoc_of (S : sdiagram) (x : sassoc) : rassoc :=
+  let a0 := set_comment (assoc0 (sx_id x) (ostr (sx_name x))) (doc_value (sx_doc x)) in
+  if to_first (sx_layout x) then end_spec S true (sx_from x) (end_spec S false (sx_to x) a0)
+  else end_spec S false (sx_to x) (end_spec S true (sx_from x) a0).
+
 Definition rdiagram_of (S : sdiagram) : rdiagram :=
   {| rd_classes := flat_map (fun se => match snd se with EClass c => [(sc_id c, rclass_of S c)] | _ => [] end) (sd_shapes S);
      rd_packages := flat_map (fun se => match snd se with EPackage p => [(sk_id p, rpackage_of p)] | _ => [] end) (sd_shapes S);
-     rd_assocs := [];
+     rd_assocs := flat_map (fun se => match snd se with EAssoc x => [(sx_id x, rassoc_of S x)] | _ => [] end) (sd_shapes S);
      rd_inhs := flat_map (fun se => match snd se with EInh i => [(si_id i, rinh_of S i)] | _ => [] end) (sd_shapes S) |}.
 
 (* the class diagram the generator model (Model/Uml.v) works on *)
@@ -285,12 +379,18 @@ Definition cdiagram_of (S : sdiagram) : cdiagram := to_cdiagram (rdiagram_of S).
 Definition reserved_keys : list string :=
   ["visibility"; "returnType_0"; "typeModifier"; "abstract"; "query"; "scope"; "documentation_plain"; "type_0"; "type_string";
    "direction"; "defaultValue_string"; "multiplicity"; "initialValue_string"; "hasSetter"; "hasGetter"; "readOnly";
-   "fromModel_0"; "toModel_0"; "id"; "name"; "type"].
+   "fromModel_0"; "toModel_0"; "id"; "name"; "type";
+   "Direction"; "EndModelElement_0"; "aggregationKind"; "providePropertyGetterMethod"; "providePropertySetterMethod"].
 Definition reserved_parts : list string := ["child"; "stereotype"; "abstract"; "documentation_plain"].
 
 (* a text as the theorems of the text layer need it: plain, no braces, no ',', no blank at the ends, no apostrophe *)
 Definition txt (s : string) : bool :=
   plain s && no_char "," s && String.eqb (py_strip s) s && no_char "{" s && no_char "}" s.
+(* a VALUE (default, initial value, multiplicity, modifier, documentation): it may hold ',' -- the reader keeps the commas and
+   only drops a value of which nothing but commas and blanks is left *)
+Definition vtxt (s : string) : bool :=
+  plain s && String.eqb (py_strip s) s && no_char "{" s && no_char "}" s
+  && (String.eqb s "" || negb (String.eqb (py_strip (remove_char "," s)) "")).
 Definition ident (s : string) : bool := txt s && no_char ":" s && negb (String.eqb s "").
 Definition noise_key (k : string) : bool :=
   plain k && no_char SP k && no_char "," k && no_char "{" k && no_char "}" k && negb (String.eqb k "")
@@ -304,8 +404,10 @@ Definition noise_val (v : string) : bool :=
 (* the dictionary keys an item writes: a scalar property its key, a reference list key_0, key_1, ... *)
 Definition item_keys (it : witem) : list string :=
   match it with
-  | IField _ k _ => [k]
+  | IField _ k v => if String.eqb (py_strip (remove_char "," (unq v))) "" then [] else [k]     (* a blank value is dropped *)
   | IRefs _ k _ _ _ ids => (fix go (l : list string) (n : nat) : list string := match l with [] => [] | _ :: r => (k ++ "_" ++ dec n) :: go r (S n) end) ids 0
+  (* free text: the keys Get_ValuesFromOutside makes of that one piece *)
+  | IRaw s => map fst (vstep [] (repr_body SQ (chop s)))
   | _ => []
   end.
 Definition entry_keys (its : list witem) : list string := flat_map item_keys its.
@@ -313,7 +415,7 @@ Definition entry_keys (its : list witem) : list string := flat_map item_keys its
 Fixpoint nodup_tags (l : list slot) (seen : list tag) : bool :=
   match l with
   | [] => true
-  | SNoise _ _ :: r => nodup_tags r seen
+  | SNoise _ _ :: r | SInert _ :: r => nodup_tags r seen
   | STag t :: r => negb (existsb (tag_eqb t) seen) && nodup_tags r (t :: seen)
   end.
 Fixpoint nodups (l : list string) : bool :=
@@ -324,61 +426,118 @@ Definition layout_ok (f : tag -> option witem) (l : list slot) : bool :=
   nodup_tags l []
   (* no property key is written twice; none looks like the key of an owned element *)
   && nodups (entry_keys (items_of "" f l)) && forallb (fun k => negb (prefixb "child_" k)) (entry_keys (items_of "" f l))
-  && forallb (fun s => match s with SNoise k v => noise_key k && noise_val v | STag _ => true end) l
+  && forallb (fun s => match s with SNoise k v => noise_key k && noise_val v | _ => true end) l
   && forallb (fun t => match f t with Some _ => has_tag t l | None => true end)
        [TVis; TRet; TTypeMod; TAbstract; TQuery; TScope; TDoc; TChild; TType; TTypeString; TDir; TDefault; TMult; TInit; TSetter; TGetter;
-        TReadOnly; TStereo; TFrom; TTo].
+        TReadOnly; TStereo; TFrom; TTo; TAgg].
 
-(* a type name survives CleanModifiersFromType unchanged *)
-Definition type_ok (t : string) : bool := txt t && String.eqb (clean_modifiers t) t && negb (String.eqb t "").
+(* INERT properties, per kind of element: inside the text domain; their dictionary keys are none of the keys the reader looks up
+   in such an element and contain none of the words it scans the keys for; owned elements it would take for members are excluded
+   by their type *)
+Inductive ekind := KParam | KOp | KAttr | KClass | KPackage | KInh | KAssoc | KEnd | KNone.
+Definition kind_keys (k : ekind) : list string :=
+  match k with
+  | KParam => ["type_string"; "type_0"; "direction"; "typeModifier"; "defaultValue_string"; "multiplicity"]
+  | KOp => ["visibility"; "returnType_0"; "typeModifier"; "documentation_plain"; "scope"; "abstract"; "query"]
+  | KAttr => ["visibility"; "typeModifier"; "type_0"; "documentation_plain"; "scope"; "initialValue_string"; "multiplicity"; "hasSetter"; "hasGetter"; "readOnly"]
+  | KInh => ["fromModel_0"; "toModel_0"]
+  | KAssoc => ["documentation_plain"]
+  | KEnd => ["Direction"; "EndModelElement_0"; "aggregationKind"; "multiplicity"; "visibility"; "providePropertyGetterMethod"; "providePropertySetterMethod"; "readOnly"]
+  | _ => []
+  end.
+Definition kind_parts (k : ekind) : list string :=
+  match k with
+  | KOp | KPackage | KAssoc => ["child"]
+  | KClass => ["child"; "stereotype"; "abstract"; "documentation_plain"]
+  | _ => []
+  end.
+Definition kind_child_ok (k : ekind) (ty : string) : bool :=
+  match k with
+  | KClass => negb (String.eqb (lower ty) "operation") && negb (String.eqb (lower ty) "attribute") && negb (String.eqb (py_strip (lower ty)) "enumerationliteral")
+  | KOp => negb (String.eqb (lower ty) "parameter")
+  | KAssoc => negb (contains "associationend" (lower ty))
+  | _ => true
+  end.
+Definition item_text_ok (it : witem) : bool :=
+  let n := WNode "i" None "T" [it] "" in wf_node n && nbq_node n.
+Definition inert_ok (k : ekind) (it : witem) : bool :=
+  item_text_ok it
+  && forallb (fun key => negb (existsb (String.eqb key) (kind_keys k)) && forallb (fun p => negb (contains p (lower key))) (kind_parts k)) (item_keys it)
+  && match it with IChildren _ _ _ _ _ ns => forallb (fun n => kind_child_ok k (node_type n)) ns | _ => true end.
+Definition inerts_ok (k : ekind) (l : list slot) : bool :=
+  forallb (fun s => match s with SInert it => inert_ok k it | _ => true end) l.
+Definition doc_ok (ws : string) (d : sdoc) : bool :=
+  match d with
+  | DText v => vtxt v
+  | DRaw t => raw_ok (ws ++ "documentation_plain=" ++ q t) && no_char "=" t && no_char "<" t
+              && negb (String.eqb (py_strip (remove_char "," (mass_replace (repr_body SQ (q t))))) "")
+  end.
+
+(* a type name (CleanModifiersFromType turns boolean into bool and drops * & [ ] : the specification applies it) *)
+Definition type_ok (t : string) : bool := txt t && negb (String.eqb t "").
 Definition known (S : sdiagram) (id : string) : bool := match name_of S id with Some _ => true | None => false end.
 Definition path_ok (S : sdiagram) (ids : list string) : bool :=
   forallb (fun i => ident i && known S i && ident (ostr (name_of S i))) ids.
 Definition tpath_ok (S : sdiagram) (ids : list string) : bool := path_ok S ids && type_ok (type_name S ids).
 
 Definition param_ok (S : sdiagram) (p : sparam) : bool :=
-  ident (sp_id p) && txt (sp_name p) && no_char ":" (sp_name p)
+  nl_ok (sp_nl p) && ident (sp_id p) && txt (sp_name p) && no_char ":" (sp_name p)
   && match sp_basic p with Some s => type_ok s | None => negb (match sp_type p with [] => true | _ => false end) && tpath_ok S (sp_type p) end
-  && txt (sp_mod p) && txt (sp_default p) && txt (sp_mult p) && layout_ok (param_item p) (sp_layout p).
+  && vtxt (sp_mod p) && vtxt (sp_default p) && vtxt (sp_mult p) && layout_ok (param_item p) (sp_layout p) && inerts_ok KParam (sp_layout p).
 Definition code_ok (o : option string) : bool := match o with Some c => txt c && negb (String.eqb c "") && negb (prefixb dq c) | None => true end.
 Definition op_ok (S : sdiagram) (o : sop) : bool :=
-  ident (so_id o) && ident (so_name o) && code_ok (so_vis o)
+  nl_ok (so_nl o) && ident (so_id o) && ident (so_name o) && code_ok (so_vis o)
   && match so_ret o with [] => true | ids => tpath_ok S ids end
-  && txt (so_retmod o) && txt (so_doc o) && forallb (param_ok S) (so_params o) && layout_ok (op_item o) (so_layout o).
+  && vtxt (so_retmod o) && doc_ok (tabsn (so_nl o) 3) (so_doc o) && forallb (param_ok S) (so_params o) && layout_ok (op_item o) (so_layout o) && inerts_ok KOp (so_layout o).
 Definition attr_ok (S : sdiagram) (a : sattr) : bool :=
-  ident (sa_id a) && txt (sa_name a) && no_char ":" (sa_name a) && code_ok (sa_vis a)
+  nl_ok (sa_nl a) && ident (sa_id a) && txt (sa_name a) && no_char ":" (sa_name a) && code_ok (sa_vis a)
   && match sa_type a with [] => true | ids => tpath_ok S ids end
-  && txt (sa_mod a) && txt (sa_mult a) && txt (sa_doc a) && txt (sa_init a) && layout_ok (attr_item a) (sa_layout a).
+  && vtxt (sa_mod a) && vtxt (sa_mult a) && doc_ok (tabsn (sa_nl a) 3) (sa_doc a) && vtxt (sa_init a) && layout_ok (attr_item a) (sa_layout a) && inerts_ok KAttr (sa_layout a).
 Definition member_ok (S : sdiagram) (m : smember) : bool :=
   match m with
   | MOp o => op_ok S o
   | MAttr a => attr_ok S a
-  | MLit id name noise => ident id && ident name && layout_ok (fun _ => None) noise
+  | MLit id name nl noise => nl_ok nl && ident id && ident name && layout_ok (fun _ => None) noise && inerts_ok KNone noise
   end.
 Definition class_ok (S : sdiagram) (c : sclass) : bool :=
-  ident (sc_id c) && txt (sc_name c) && no_char ":" (sc_name c)
-  && forallb (fun i => ident i && known S i) (sc_stereos c) && txt (sc_doc c)
-  && forallb (member_ok S) (sc_members c) && layout_ok (class_item c) (sc_layout c).
+  nl_ok (sc_nl c) && ident (sc_id c) && txt (sc_name c) && no_char ":" (sc_name c)
+  && forallb (fun i => ident i && known S i) (sc_stereos c) && doc_ok (tabsn (sc_nl c) 1) (sc_doc c)
+  && forallb (member_ok S) (sc_members c) && layout_ok (class_item c) (sc_layout c) && inerts_ok KClass (sc_layout c).
 Definition package_ok (S : sdiagram) (p : spackage) : bool :=
-  ident (sk_id p) && ident (sk_name p)
+  nl_ok (sk_nl p) && ident (sk_id p) && ident (sk_name p)
   && forallb (fun path => negb (match path with [] => true | _ => false end) && forallb ident path
                           && forallb (fun i => existsb (fun se => match snd se with EPackage k => String.eqb (sk_id k) i | _ => false end) (sd_shapes S)) (removelast path)) (sk_paths p)
-  && layout_ok (package_item p) (sk_layout p).
+  && layout_ok (package_item p) (sk_layout p) && inerts_ok KPackage (sk_layout p).
 Definition inh_ok (S : sdiagram) (i : sinh) : bool :=
-  ident (si_id i) && negb (match si_from i with [] => true | _ => false end) && negb (match si_to i with [] => true | _ => false end)
-  && path_ok S (si_from i) && path_ok S (si_to i) && layout_ok (inh_item i) (si_layout i).
+  nl_ok (si_nl i) && ident (si_id i) && negb (match si_from i with [] => true | _ => false end) && negb (match si_to i with [] => true | _ => false end)
+  && path_ok S (si_from i) && path_ok S (si_to i) && layout_ok (inh_item i) (si_layout i) && inerts_ok KInh (si_layout i).
+
+Definition name_ok (avoid : string) (nm : option string) : bool :=
+  match nm with Some n => txt n && no_char ":" n && negb (contains avoid n) | None => true end.
+Definition end_ok (S : sdiagram) (from : bool) (e : send) : bool :=
+  nl_ok (se_nl e) && ident (se_id e) && negb (contains "readOnly" (se_id e)) && name_ok "readOnly" (se_name e)
+  && negb (match se_class e with [] => true | _ => false end) && path_ok S (se_class e)
+  && vtxt (se_mult e) && code_ok (se_agg e) && code_ok (se_vis e) && layout_ok (end_item from e) (se_layout e) && inerts_ok KEnd (se_layout e).
+Definition assoc_ok (S : sdiagram) (x : sassoc) : bool :=
+  (* the NAME of an association may hold colons (the reader does not use the header of its blob) *)
+  nl_ok (sx_nl x) && ident (sx_id x) && negb (contains "documentation_plain" (sx_id x))
+  && match sx_name x with Some n => txt n && negb (contains "documentation_plain" n) | None => true end
+  && doc_ok (tabsn (sx_nl x) 1) (sx_doc x) && end_ok S true (sx_from x) && end_ok S false (sx_to x) && layout_ok (assoc_item x) (sx_layout x) && inerts_ok KAssoc (sx_layout x).
 
 Definition sdiagram_ok (S : sdiagram) : bool :=
   forallb (fun se => match snd se with
                      | EClass c => class_ok S c
                      | EPackage p => package_ok S p
                      | EInh i => inh_ok S i
-                     | EOther id nm ty _ noise =>
-                         ident id && match nm with Some n => txt n && no_char ":" n | None => true end && ident ty
+                     | EAssoc x => assoc_ok S x
+                     | EOther id nm ty _ nl noise =>
+                         nl_ok nl && ident id && match nm with Some n => txt n && no_char ":" n | None => true end && ident ty
                          && negb (existsb (String.eqb ty) ["Class"; "Package"; "Association"; "Realization"; "Generalization"])
-                         && layout_ok (fun _ => None) noise
-                     end) (sd_shapes S)
-  && forallb (fun r => ident (sr_id r) && txt (sr_name r) && no_char ":" (sr_name r) && ident (sr_type r) && layout_ok (fun _ => None) (sr_noise r)) (sd_refd S)
+                         && layout_ok (fun _ => None) noise && inerts_ok KNone noise
+                     end
+                     (* str(bytes) of the row delimits with apostrophes: no apostrophe in it, or a double quote *)
+                     && quote_ok (print_node (we_node (welem_of (snd se))))) (sd_shapes S)
+  && forallb (fun r => nl_ok (sr_nl r) && ident (sr_id r) && txt (sr_name r) && no_char ":" (sr_name r) && ident (sr_type r) && layout_ok (fun _ => None) (sr_noise r) && inerts_ok KNone (sr_noise r)) (sd_refd S)
   (* every element is drawn once; a class lies on at most one package path *)
   && nodups (map (fun se => elem_id (snd se)) (sd_shapes S))
   && nodups (map (fun p => last p "") (all_paths S)).
